@@ -478,7 +478,9 @@ def gen_fit(rng, tier):
             rng.below(1 << 30), rng.range(24, 90), rng.range(1, 4), rng.range(0, 2), task, loss, rng.range(2, 5),
             rng.below(1025), model, rng.choice(["none", "mean", "minmax", "standard"]), solver,
             f2h(rng.choice([0.0, 0.05, 0.3, 1.0])), rng.choice([10, 16, 100])))
-    return ops
+    # every third fit is a RE-fit: the same model object was fitted on another sample set before (seeded change C11-c3: state of
+    # the first fit leaking into the second); the statement's clauses are about the model the last fit() leaves
+    return [op + " refit" if k % 3 == 1 else op for k, op in enumerate(ops)]
 
 
 def gen_gbloop(rng, tier):
